@@ -653,7 +653,7 @@ impl Generator {
         }
         // the stack is one more resource seam: a few percent of the runs get what a spawned
         // thread gets by default
-        trace.small_stack = rng.pct(6);
+        trace.small_stack = rng.pct(8);
         if info.broken && trace.mode == Mode::Provider {
             trace.mode = Mode::Image;
             trace.faults.retain(|f| f.targets().iter().all(|t| t == "file"));
